@@ -6,6 +6,7 @@ CONSTANTS
   WireMode = "ab"
   InitMode = "initialized"
   SortPI = TRUE
+  TailIgnored = FALSE
 INVARIANTS
   RoundTripKeys
   CompressDeterministic
@@ -15,4 +16,5 @@ INVARIANTS
   RejectsMalformed
   AcceptsSparse
   Bounded
+  RejectsTrailing
 CHECK_DEADLOCK FALSE
